@@ -120,12 +120,15 @@ Proof.
 Qed.
 
 (* ================= proxy options ================= *)
-Lemma proxy_table : forall a b c d e f, proxy_refused a b c d e f = proxy_spec a b c d e f.
-Proof. intros [] [] [] [] [] []; reflexivity. Qed.
+Lemma proxy_table : forall a b cb c d e f, proxy_refused a b cb c d e f = proxy_spec a b cb c d e f.
+Proof. intros [] [] [] [] [] [] []; reflexivity. Qed.
 
-Lemma proxy_defaults_table : forall a b c d e f, proxy_refused a b c d e f = false ->
-  proxy_count_defaulted a b c d e f = b /\ proxy_headers_defaulted a b c d e f = (negb c && negb a).
-Proof. intros [] [] [] [] [] []; cbv; intro H; try discriminate H; split; reflexivity. Qed.
+Lemma proxy_defaults_table : forall a b cb c d e f, proxy_refused a b cb c d e f = false ->
+  proxy_count_defaulted a b cb c d e f = b /\ proxy_headers_defaulted a b cb c d e f = (negb c && negb a).
+Proof. intros [] [] [] [] [] [] []; cbv; intro H; try discriminate H; split; reflexivity. Qed.
+
+Lemma min_count_match : proxy_min_count = 1%Z.
+Proof. reflexivity. Qed.
 
 Lemma known_headers_match : known_proxy_headers = spec_known_headers.
 Proof. reflexivity. Qed.
@@ -145,28 +148,33 @@ Definition attr_headers (a : attrs) : list str :=
   match dict_get k_trusted_proxy_headers a with Some (SSet l) => l | _ => [] end.
 Definition attr_tp_none (a : attrs) : bool :=
   match dict_get k_trusted_proxy a with None => true | Some SNone => true | Some _ => false end.
-Definition attr_tpc_none (a : attrs) : bool :=
-  match dict_get k_trusted_proxy_count a with None => true | Some _ => false end.
-
 Definition proxy_stage_refused (a : attrs) : bool :=
-  let '(x1, x2, x3, x4, x5, x6) := proxy_atoms a in proxy_refused x1 x2 x3 x4 x5 x6.
+  let '(x1, x2, x3, x4, x5, x6, x7) := proxy_atoms a in proxy_refused x1 x2 x3 x4 x5 x6 x7.
 
-(* over the configured values, for every header list *)
+(* over the configured values, for every count and every header list *)
 Lemma proxy_stage_spec : forall a,
-  proxy_stage_refused a = true <-> proxy_conflict (attr_tp_none a) (attr_tpc_none a) (attr_headers a).
+  proxy_stage_refused a = true <-> proxy_conflict (attr_tp_none a) (attr_count a) (attr_headers a).
 Proof.
   intro a. unfold proxy_stage_refused, proxy_atoms.
   fold (attr_headers a). rewrite proxy_table.
   change (match dict_get k_trusted_proxy a with
           | None => defaults_proxy_and_sockets_empty | Some SNone => true | Some _ => false end)
     with (attr_tp_none a).
-  change (match dict_get k_trusted_proxy_count a with None => true | Some _ => false end)
-    with (attr_tpc_none a).
-  set (hs := attr_headers a). set (tp := attr_tp_none a). set (tc := attr_tpc_none a).
-  rewrite known_headers_match, forwarded_name_match.
+  set (hs := attr_headers a). set (tp := attr_tp_none a). set (cn := attr_count a).
+  rewrite known_headers_match, forwarded_name_match, min_count_match.
   unfold proxy_spec, proxy_conflict.
   assert (Hne : nonempty_l hs = true <-> hs <> []).
   { destruct hs; cbn; split; intro H; try discriminate; try reflexivity. exfalso; apply H; reflexivity. }
+  assert (Hc1 : negb (match cn with None => true | Some _ => false end) = true <-> cn <> None).
+  { destruct cn; cbn; split; intro H; try discriminate; try reflexivity. exfalso; apply H; reflexivity. }
+  assert (Hc2 : match cn with Some z => Z.ltb z 1 | None => false end = true <-> exists z, cn = Some z /\ (z < 1)%Z).
+  { destruct cn as [z|]; split.
+    - intro H. exists z. split; [reflexivity|]. apply Z.ltb_lt. exact H.
+    - intros [z' [E H]]. injection E as ->. apply Z.ltb_lt. exact H.
+    - discriminate.
+    - intros [z' [E _]]. discriminate. }
+  assert (Hc3 : (exists z, cn = Some z /\ (z < 1)%Z) -> cn <> None).
+  { intros [z [E _]]. rewrite E. discriminate. }
   assert (Hu : existsb (fun h => negb (memstr h spec_known_headers)) (lowered_headers hs) = true
                <-> exists h, In h hs /\ ~ In (lower_latin1 h) spec_known_headers).
   { rewrite existsb_exists. unfold lowered_headers. split.
@@ -191,7 +199,7 @@ Proof.
   { intros [h [Hh _]] E. rewrite E in Hh. destruct Hh. }
   assert (Hfn : In s_forwarded (map lower_latin1 hs) -> hs <> []).
   { intros H E. rewrite E in H. destruct H. }
-  rewrite !orb_true_iff, !andb_true_iff, negb_true_iff, Hne, Hu, Hf, Ho.
+  rewrite !orb_true_iff, !andb_true_iff, Hc1, Hc2, Hne, Hu, Hf, Ho.
   tauto.
 Qed.
 
@@ -203,14 +211,14 @@ Proof.
   destruct (assign_loop kw []) as [a|x]; [|discriminate]. exists a. split; [reflexivity|].
   destruct (families_refused _ _ _); [discriminate|].
   destruct (listen_loop _ _ _ _ _) as [w|x]; [|discriminate].
-  unfold proxy_stage_refused. destruct (proxy_atoms a) as [[[[[x1 x2] x3] x4] x5] x6].
-  destruct (proxy_refused x1 x2 x3 x4 x5 x6); [discriminate|reflexivity].
+  unfold proxy_stage_refused. destruct (proxy_atoms a) as [[[[[[x1 x2] x3] x4] x5] x6] x7].
+  destruct (proxy_refused x1 x2 x3 x4 x5 x6 x7); [discriminate|reflexivity].
 Qed.
 
 (* a configuration that is accepted has no proxy conflict *)
 Lemma construct_ok_no_proxy_conflict : forall e kw a', construct e kw = Ok a' ->
   exists a, assign_loop kw [] = Ok a
-            /\ ~ proxy_conflict (attr_tp_none a) (attr_tpc_none a) (attr_headers a).
+            /\ ~ proxy_conflict (attr_tp_none a) (attr_count a) (attr_headers a).
 Proof.
   intros e kw a' H. destruct (construct_ok_proxy _ _ _ H) as [a [Ha Hp]].
   exists a. split; [exact Ha|]. rewrite <- proxy_stage_spec, Hp. discriminate.
@@ -296,7 +304,7 @@ Definition attr_ipv6 (a : attrs) : bool := get_bool k_ipv6 a true.
 Definition accepted_ok (e : env) (kw : kwargs) (a : attrs) : Prop :=
   two_groups (fun n : list N => memstr n (map (@fst str value) kw)) = false
   /\ (forall k, In k (map fst kw) -> In k (map fst params))
-  /\ ~ proxy_conflict (attr_tp_none a) (attr_tpc_none a) (attr_headers a)
+  /\ ~ proxy_conflict (attr_tp_none a) (attr_count a) (attr_headers a)
   /\ ~ socks_conflict e (attr_sockets a)
   /\ (attr_ipv4 a || attr_ipv6 a = true)
   /\ honours (attr_ipv4 a) (attr_ipv6 a) (families_value (attr_ipv4 a) (attr_ipv6 a) (has_ipv6 e)).
@@ -315,17 +323,17 @@ Proof.
     destruct (excl _); [discriminate|]. rewrite Ha in H.
     destruct (families_refused _ _ _) eqn:Ef; [discriminate|].
     destruct (listen_loop _ _ _ _ _) as [w|x]; [|discriminate].
-    destruct (proxy_atoms a) as [[[[[x1 x2] x3] x4] x5] x6].
-    destruct (proxy_refused x1 x2 x3 x4 x5 x6); [discriminate|].
+    destruct (proxy_atoms a) as [[[[[[x1 x2] x0] x3] x4] x5] x6].
+    destruct (proxy_refused x1 x2 x0 x3 x4 x5 x6); [discriminate|].
     split.
     + match type of H with
       | (if check_sockets e ?l then _ else _) = _ => destruct (check_sockets e l) eqn:Ec; [discriminate|];
           assert (El : l = attr_sockets a)
       end.
       { unfold attr_sockets. rewrite dict_get_set_neq by reflexivity.
-        destruct (proxy_headers_defaulted _ _ _ _ _ _); [rewrite dict_get_set_neq by reflexivity|
+        destruct (proxy_headers_defaulted _ _ _ _ _ _ _); [rewrite dict_get_set_neq by reflexivity|
           destruct x3; [rewrite dict_get_set_neq by reflexivity|]];
-        (destruct (proxy_count_defaulted _ _ _ _ _ _); [rewrite dict_get_set_neq by reflexivity|]); reflexivity. }
+        (destruct (proxy_count_defaulted _ _ _ _ _ _ _); [rewrite dict_get_set_neq by reflexivity|]); reflexivity. }
       rewrite El in Ec. intro Hc. apply check_sockets_spec in Hc. rewrite Hc in Ec. discriminate.
     + assert (D4 : default_ipv4 = true) by reflexivity. assert (D6 : default_ipv6 = true) by reflexivity.
       rewrite D4, D6 in Ef. fold (attr_ipv4 a) in Ef. fold (attr_ipv6 a) in Ef.
@@ -333,6 +341,57 @@ Proof.
       split; [|apply F2; exact Ef].
       destruct (attr_ipv4 a); [reflexivity|]. destruct (attr_ipv6 a); [reflexivity|].
       rewrite F1 in Ef by reflexivity. discriminate.
+Qed.
+
+(* the trusted_proxy_count an accepted configuration ends up with is at least 1 *)
+Lemma dict_get_set_eq : forall {V} k (v : V) d, dict_get k (dict_set k v d) = Some v.
+Proof.
+  intros V k v. induction d as [|[k2 v2] d IH]; cbn [dict_set dict_get].
+  - rewrite beqb_refl. reflexivity.
+  - destruct (beqb k k2) eqn:E; cbn [dict_get]; rewrite E; [reflexivity|exact IH].
+Qed.
+
+Lemma proxy_atoms_count : forall a,
+  let '(_, x2, x0, _, _, _, _) := proxy_atoms a in
+  x2 = match attr_count a with None => true | Some _ => false end
+  /\ x0 = match attr_count a with Some z => Z.ltb z proxy_min_count | None => false end.
+Proof. intro a. unfold proxy_atoms. split; reflexivity. Qed.
+
+Lemma construct_ok_count : forall e kw a', construct e kw = Ok a' ->
+  exists z, dict_get k_trusted_proxy_count a' = Some (SInt z) /\ (1 <= z)%Z.
+Proof.
+  intros e kw a' H. unfold construct in H. cbv zeta in H.
+  destruct (excl _); [discriminate|].
+  destruct (assign_loop kw []) as [a|x]; [|discriminate].
+  destruct (families_refused _ _ _); [discriminate|].
+  destruct (listen_loop _ _ _ _ _) as [w|x]; [|discriminate].
+  pose proof (proxy_atoms_count a) as PC.
+  destruct (proxy_atoms a) as [[[[[[x1 x2] x0] x3] x4] x5] x6]. destruct PC as [P2 P0].
+  destruct (proxy_refused x1 x2 x0 x3 x4 x5 x6) eqn:Er; [discriminate|].
+  destruct (proxy_defaults_table _ _ _ _ _ _ _ Er) as [Dc _].
+  rewrite proxy_table in Er. unfold proxy_spec in Er.
+  match type of H with (if ?c then _ else _) = _ => destruct c; [discriminate|] end.
+  injection H as <-.
+  rewrite dict_get_set_neq by reflexivity.
+  assert (G : forall a1, (exists z, dict_get k_trusted_proxy_count a1 = Some (SInt z) /\ (1 <= z)%Z) ->
+    exists z, dict_get k_trusted_proxy_count
+      (if proxy_headers_defaulted x1 x2 x0 x3 x4 x5 x6
+       then dict_set k_trusted_proxy_headers (SSet proxy_default_headers) a1
+       else if x3 then dict_set k_trusted_proxy_headers
+                         (SSet (lowered_headers match dict_get k_trusted_proxy_headers a1 with
+                                                | Some (SSet l) => l | _ => [] end)) a1
+            else a1) = Some (SInt z) /\ (1 <= z)%Z).
+  { intros a1 Hz. destruct (proxy_headers_defaulted _ _ _ _ _ _ _); [rewrite dict_get_set_neq by reflexivity; exact Hz|].
+    destruct x3; [rewrite dict_get_set_neq by reflexivity|]; exact Hz. }
+  apply G. rewrite Dc. destruct x2.
+  - rewrite dict_get_set_eq. exists (Z.of_N proxy_default_count). split; [reflexivity|]. cbv. discriminate.
+  - unfold attr_count in P2, P0.
+    destruct (dict_get k_trusted_proxy_count a) as [[| | z | | | | |]|]; try discriminate P2.
+    exists z. split; [reflexivity|].
+    subst x0. cbn [negb andb orb] in Er.
+    destruct (Z.ltb z proxy_min_count) eqn:El.
+    + destruct x1; cbn in Er; discriminate Er.
+    + apply Z.ltb_ge in El. exact El.
 Qed.
 
 (* ================= middleware switch (server.py) ================= *)
@@ -422,9 +481,9 @@ Qed.
 Example excl_some : excl (present_of [s_listen; s_port]) = true /\ excl (present_of [s_host; s_port]) = false.
 Proof. split; reflexivity. Qed.
 Example proxy_conflict_some :
-  proxy_conflict false true [[70;111;114;119;97;114;100;101;100]; xfwd [102;111;114]].  (* Forwarded x-forwarded-for *)
+  proxy_conflict false None [[70;111;114;119;97;114;100;101;100]; xfwd [102;111;114]].  (* Forwarded x-forwarded-for *)
 Proof.
-  right. right. right. split.
+  right. right. right. right. split.
   - left. reflexivity.
   - exists (xfwd [102;111;114]). split; [right; left; reflexivity|]. discriminate.
 Qed.
